@@ -112,7 +112,7 @@ CHECKS = {
         'technique': 'property-based testing: ground-truth partition + reference band arithmetic + invariants of grid alignment',
     },
     'C16': {
-        'text': 'Differential over histories (incl. GGN parameters, explicit line routes, twin requests differing in tx power): each generated request planned alone on a pristine copy vs inside 2-4 generated '
+        'text': 'Differential over histories (incl. GGN parameters, explicit line routes, twin requests differing in tx power, synchronisation vectors): each generated request (each component of requests tied by synchronisation vectors) planned alone on a pristine copy vs inside 2-4 generated '
                 'orderings / sub-batches that reuse one network object; routes, modes, receiver figures, verdicts compared '
                 '(1e-9), network state digest and export compared before/after.',
         'note': _NOTE,
